@@ -25,7 +25,7 @@ LEVEL_NOTE = "Trusted: PyYAML; the checker's normalisation (tuple/array -> list,
 TECHNIQUE = "runtime monitoring: generated objects through the real serializer, round-trip oracle over constructor arguments + text idempotence; model mapping re-checked with the C11 shadow oracle"
 RULE = ("object kinds: 13 scatterer classes (incl. nested collections, CSG, rigid cluster), 5 prior kinds, 6 theories, 5 "
         "strategies, 2 model classes, constraint, uncertain value; argument flavours {python, numpy scalar, tuple, array, "
-        "extreme magnitude, explicit None}. non-trivial = object has >=1 constructor argument set; distinct by rounded case JSON")
+        "extreme magnitude, explicit None}; complex numbers with zero / negative-zero parts; scipy ufuncs, bound methods, labelled-array values, nested rigid clusters; targets {file, binary / text stream via serialize and via hp.save/hp.load, temporary files}. non-trivial = object has >=1 constructor argument set; distinct by rounded case JSON")
 ASSUMPTIONS = ["library equality is checked for objects whose sequence arguments are all passed explicitly as lists (a tuple-valued *default*, e.g. rotation=(0, 0, 0), reloads as a list and is not counted against equality)",
                "DDA cannot be constructed here (adda missing) and Indicators/Scatterer hold Python functions; both are reported as not generated",
                "argument values are compared after normalising containers (tuple/array -> list) and numpy scalars -> Python scalars, as the property allows"]
